@@ -42,6 +42,7 @@ type SolveOpts struct {
 	Workers   int
 	Tags      map[string]bool // only obligations carrying one of these tags (nil = all)
 	KeepFiles bool
+	Select    func(o *Obl) bool // overrides Tags when set
 }
 
 var solverCmds = map[string][]string{
@@ -92,6 +93,13 @@ func runSolver(solver string, script string, timeoutMS int, nqueries int, dir st
 	return
 }
 
+func selectedBy(o *Obl, opts SolveOpts) bool {
+	if opts.Select != nil {
+		return opts.Select(o)
+	}
+	return selected(o, opts.Tags)
+}
+
 func selected(o *Obl, tags map[string]bool) bool {
 	if tags == nil {
 		return true
@@ -117,7 +125,7 @@ func solveFunc(fr *FuncResult, opts SolveOpts) []*OblResult {
 		var ji []*instance
 		for oi := range p.Obls {
 			o := &p.Obls[oi]
-			if !selected(o, opts.Tags) {
+			if !selectedBy(o, opts) {
 				continue
 			}
 			in := &instance{path: p, obl: o}
